@@ -48,12 +48,12 @@ Qed.
 Lemma query_info_sound qk iss now tok h :
   query_info qk iss now tok = Some h ->
   exists a c, tok = JCompact a qk c /\ in_list (alg_name a) QUERY_SIG_ALGS = true /\
-              cl_iss c = iss /\ time_ok now c /\ cl_sub c = h.
+              (iss = [] \/ cl_iss c = iss) /\ time_ok now c /\ cl_sub c = h.
 Proof.
   unfold query_info. destruct tok as [|a key c|]; try discriminate.
   destruct (in_list (alg_name a) QUERY_SIG_ALGS && bytes_eqb key qk && validate iss now c) eqn:E; [|discriminate].
   apply andb_true_iff in E as [E V]. apply andb_true_iff in E as [A K].
-  apply bytes_eqb_eq in K. subst. apply validate_iff in V as [V1 V2].
+  apply bytes_eqb_eq in K. subst. apply validate_gen_iff in V as [V1 V2].
   intro H; inversion H; subst. eauto 10.
 Qed.
 
